@@ -127,7 +127,9 @@ def run(ctx, cases_override=None):
             for c in red:
                 c["full"] = True                                                                # at all 12 (command, state) points
             cases += red
-            cases += gen("c09_gen5.cfg", cfg(2, 2, 1, 1, 1, False, "EmitCase", reduced=True))  # every pair of (2,1) blocks, 6 points
+            # every pair of blocks with <=2 match sub-blocks (6 points); pairs with an ignore sub-block are model-checked (mc5)
+            # and replayed through the shared-marker sets below
+            cases += gen("c09_gen5.cfg", cfg(2, 2, 0, 1, 0, False, "EmitCase", reduced=True))
             sim = gen("c09_gen3.cfg", cfg(3, 2, 2, 3, 3, True, "EmitCase"), simulate=600, depth=80)
             for c in sim:
                 c["full"] = True          # simulated multi-block configurations: all 12 (command, state) points
